@@ -60,6 +60,7 @@ inductive RE
 
 /-- random.h, floating instantiation: `uniform_real_distribution<T> d(ctorA, ctorB)`; the returned expression -/
 structure RandReal where
+  halvesWhenWide : Bool  -- `if (!isfinite(sup − min)) return 2 * between(min / 2, sup / 2);` precedes the draw
   ctorA : RE
   ctorB : RE
   ret   : RE
